@@ -434,6 +434,7 @@ func runC19(c *Ctx) {
 		c.undecided("C19.pool.pair-fixed", nil, "constructor of bufferedTextHandler", nil, "no field initialisation found in newBufferedTextHandler")
 	}
 	poolNewFresh(c, "C19", []string{"logutil/slogutil"}, 1)
+	c19TextOptions(c)
 	// ---- R6 ----
 	if mk != nil {
 		lvl := mk.Params[0]
@@ -848,4 +849,159 @@ func concreteStoredString(f *ssa.Function, env map[ssa.Value]int64, field string
 		prev, blk = blk, next
 	}
 	return "", false
+}
+
+// c19TextOptions: the options that configure the pooled slog.TextHandler are
+// the caller's options themselves (or a whole copy): the message must be the
+// line slog.TextHandler prints for the record *with those options* — a copy
+// that takes over some fields only (Level and ReplaceAttr but not AddSource)
+// prints another line.
+func c19TextOptions(c *Ctx) {
+	c.L.Floor("C19.text-options", 2)
+	ctor := c.P.Func("logutil/slogutil", "NewJSONHybridHandler")
+	nb := c.P.Func("logutil/slogutil", "newBufferedTextHandler")
+	if ctor == nil || len(ctor.Params) < 2 {
+		c.undecided("C19.text-options", nil, "NewJSONHybridHandler(w, opts)", nil, "constructor not found")
+		return
+	}
+	opts := ctor.Params[1]
+	// roots of a value: through phis, conversions, local cells and the cells
+	// captured by closures
+	var roots func(v ssa.Value, depth int, seen map[ssa.Value]bool) []ssa.Value
+	roots = func(v ssa.Value, depth int, seen map[ssa.Value]bool) []ssa.Value {
+		if seen[v] || depth > 10 {
+			return nil
+		}
+		seen[v] = true
+		switch x := v.(type) {
+		case *ssa.Phi:
+			var out []ssa.Value
+			for _, e := range x.Edges {
+				out = append(out, roots(e, depth+1, seen)...)
+			}
+			return out
+		case *ssa.ChangeType:
+			return roots(x.X, depth+1, seen)
+		case *ssa.UnOp:
+			if x.Op != token.MUL {
+				return []ssa.Value{v}
+			}
+			cell := x.X
+			if fv, ok := cell.(*ssa.FreeVar); ok {
+				fn := fv.Parent()
+				idx := -1
+				for i, f := range fn.FreeVars {
+					if f == fv {
+						idx = i
+					}
+				}
+				var out []ssa.Value
+				if p := fn.Parent(); p != nil && idx >= 0 {
+					core.EachInstr(p, func(in ssa.Instruction) {
+						if mc, ok := in.(*ssa.MakeClosure); ok && mc.Fn == ssa.Value(fn) && idx < len(mc.Bindings) {
+							out = append(out, roots(&ssa.UnOp{Op: token.MUL, X: mc.Bindings[idx]}, depth+1, seen)...)
+						}
+					})
+				}
+				return out
+			}
+			if al, ok := cell.(*ssa.Alloc); ok {
+				var out []ssa.Value
+				for _, r := range core.Refs(al) {
+					if st, ok := r.(*ssa.Store); ok && st.Addr == ssa.Value(al) {
+						out = append(out, roots(st.Val, depth+1, seen)...)
+					}
+				}
+				if len(out) > 0 {
+					return out
+				}
+			}
+			return []ssa.Value{v}
+		}
+		return []ssa.Value{v}
+	}
+	isWholeCopyOf := func(al *ssa.Alloc, src ssa.Value) bool {
+		whole := 0
+		for _, r := range core.Refs(al) {
+			switch x := r.(type) {
+			case *ssa.Store:
+				if x.Addr != ssa.Value(al) {
+					continue
+				}
+				ld, ok := x.Val.(*ssa.UnOp)
+				if !ok || ld.Op != token.MUL {
+					return false
+				}
+				okSrc := false
+				for _, rt := range roots(ld.X, 0, map[ssa.Value]bool{}) {
+					if rt == src {
+						okSrc = true
+					}
+				}
+				if !okSrc {
+					return false
+				}
+				whole++
+			case *ssa.FieldAddr:
+				for _, rr := range core.Refs(x) {
+					if _, isSt := rr.(*ssa.Store); isSt {
+						return false // a field set separately: not the caller's options any more
+					}
+				}
+			}
+		}
+		return whole == 1
+	}
+	check := func(f *ssa.Function, call *ssa.Call, arg ssa.Value, want ssa.Value, what string) {
+		ok := true
+		why := ""
+		rs := roots(arg, 0, map[ssa.Value]bool{})
+		if len(rs) == 0 {
+			ok, why = false, "no origin found"
+		}
+		for _, rt := range rs {
+			switch x := rt.(type) {
+			case *ssa.Parameter:
+				if rt != want {
+					ok, why = false, "another parameter"
+				}
+			case *ssa.Alloc:
+				if !isWholeCopyOf(x, want) {
+					ok, why = false, "a HandlerOptions value that is not a whole copy of the caller's (some fields are taken over, others are not)"
+				}
+			default:
+				ok, why = false, "built from "+core.Describe(rt)
+			}
+		}
+		c.check(ok, "C19.text-options", f, what, call, "the text line is slog.TextHandler's for the caller's options (AddSource, ReplaceAttr, Level): "+why)
+	}
+	n := 0
+	for _, f := range c.P.Funcs("logutil/slogutil") {
+		for _, ci := range core.AllCalls(f) {
+			call, ok := ci.(*ssa.Call)
+			if !ok {
+				continue
+			}
+			g := call.Call.StaticCallee()
+			switch {
+			case nb != nil && g == nb && len(call.Call.Args) == 2:
+				// only the hybrid handler's constructor (and its closures) is in scope
+				top := f
+				for top.Parent() != nil {
+					top = top.Parent()
+				}
+				if top != ctor {
+					continue
+				}
+				n++
+				check(f, call, call.Call.Args[1], opts, "newBufferedTextHandler(_, opts) with the constructor's own options")
+			case core.CalleeName(&call.Call) == "log/slog.NewTextHandler" && f == nb && len(call.Call.Args) == 2:
+				n++
+				check(f, call, call.Call.Args[1], nb.Params[1], "slog.NewTextHandler(buf, handlerOpts) with the options received")
+			}
+		}
+	}
+	if n == 0 {
+		c.undecided("C19.text-options", ctor, "construction of the pooled text handlers", nil, "no call of newBufferedTextHandler / slog.NewTextHandler found")
+	}
 }
